@@ -66,22 +66,30 @@ class ShapelyPolygon(Domain):
     ):
         n = self._compute_number_of_points(n, d, params)
         points = torch.empty((0, self.dim), device=device)
-        big_t, biggest_area = None, 0
         # instead of using a bounding box it is more efficient to triangulate
         # the polygon and sample in each triangle.
-        for t in s_ops.triangulate(self.polygon):
+        triangles = list(s_ops.triangulate(self.polygon))
+        for t in triangles:
             scaled_n = int(t.area / self.polygon.area * n)
             new_points = self._sample_in_triangulation(t, scaled_n, device)
             if new_points is not None:
                 points = torch.cat((points, new_points), dim=0)
-            # remember the biggest triangle that was inside, if later
-            # some additional points need to be added
-            if t.within(self.polygon) and t.area > biggest_area:
-                big_t = [t][0]
-                biggest_area = t.area
             if len(points) == n:
                 break
-        points = self._check_enough_points_sampled(n, points, big_t, device)
+        # if some points are missing, distribute them randomly (proportional to
+        # the area) over the triangles that lay inside the polygon. Always using
+        # the same triangle would not be uniform for small n.
+        inner_t = [t for t in triangles if t.within(self.polygon)]
+        inner_areas = torch.tensor([t.area for t in inner_t], dtype=torch.float64)
+        while len(points) < n:
+            index = torch.multinomial(
+                inner_areas / inner_areas.sum(), n - len(points), replacement=True
+            )
+            for i in torch.unique(index):
+                n_i = len(points) + int((index == i).sum())
+                points = self._check_enough_points_sampled(
+                    n_i, points, inner_t[i], device
+                )
         # the points were created triangle by triangle, return them in random order
         # (the rows get paired with parameter rows, e.g. in domain operations)
         points = points[torch.randperm(len(points), device=device)]
